@@ -492,6 +492,18 @@ MC_HARNESS(pool) {
   mc::observe("progs", idx[0] * 64 + idx[1] * 8 + idx[2]);
   {
     dispenso::PoolAllocator pa(cs, ss, [&log](size_t n) { return log.do_alloc(n); }, [&log](void* p) { log.do_dealloc(p); });
+    // warm=k: before the threads exist T0 allocates k chunks and calls clear() (documented as not thread-safe, so it
+    // is done while nobody else uses the allocator): the threads then start on an allocator that owns retired slabs
+    // but no free chunk, and their first allocations have to bring a retired slab back
+    int warm = (int)P("warm", 0);
+    if (warm) {
+      for (int i = 0; i < warm; i++) cm.on_alloc(log, 0, pa.alloc());
+      pa.clear();
+      cm.live.clear();
+      log.recycled_at_clear = (int)log.slabs.size();
+      for (auto& sl : log.slabs) sl.touched_since_clear = 0;
+      hcover("pool_warm_clear");
+    }
     for (int i = 1; i < 3; i++)
       if (!progs[i].empty() && progs[i] != "-") mc::spawn([&, i] { pool_thread(pa, log, cm, i, progs[i]); });
     pool_thread(pa, log, cm, 0, progs[0]);
